@@ -65,6 +65,7 @@ def setup(rep, tier):
     rep.minimum('R12.5', 5)
     rep.minimum('R12.6', 5)
     rep.minimum('R12.7', 10)
+    rep.minimum('R12.8', 1)
 
 
 # ------------------------------------------------------------------ helpers
@@ -878,7 +879,76 @@ def r12_7_residue(rep, prog, settings, excmap):
         rep.unresolved('R12.7', 'only %d out-of-region fields with cross-call reads found' % nchecked)
 
 
+# ------------------------------------------------------------------ R12.8
+def _const_factor(e):
+    """product of the integer constants of a multiplicative term (1 when there is none)"""
+    e = sx.strip(e)
+    iv = sx.int_val(e)
+    if iv is not None:
+        return iv
+    if sx.kind(e) == 'cast':
+        return _const_factor(e[4])
+    if sx.kind(e) == 'bin' and e[1] == '*':
+        return _const_factor(e[2]) * _const_factor(e[3])
+    if sx.kind(e) == 'bin' and e[1] == '<<' and sx.int_val(e[3]) is not None:
+        return _const_factor(e[2]) << sx.int_val(e[3])
+    return 1
+
+
+def _terms(e):
+    e = sx.strip(e)
+    if sx.kind(e) == 'cast':
+        return _terms(e[4])
+    if sx.kind(e) == 'bin' and e[1] in ('+', '-'):
+        return _terms(e[2]) + _terms(e[3])
+    return [e]
+
+
+def r12_8(rep, prog):
+    """every clear / copy of typed storage covers whole elements: the byte length of each memset / memcpy /
+    memmove is, term by term, a multiple of the size of the element its destination points to (the pointee
+    size is recorded by the extractor where the pointer is converted to void*).  A length that lost its
+    sizeof factor clears or copies a fraction of the elements and leaves the rest to whatever the memory held -
+    output then depends on stack / heap residue, not on the inputs."""
+    n = 0
+    bad = []
+    skipped = 0
+    for f in prog.functions_all:
+        for c in f.calls():
+            if sx.callee_name(c) not in MEMSET and sx.callee_name(c) not in ('memcpy', 'memmove'):
+                continue
+            if len(c[2]) < 3:
+                continue
+            d = c[2][0]
+            psz = sx.A(d).get('psz') if sx.kind(d) == 'cast' else None
+            if psz is None:
+                skipped += 1
+                continue
+            ln = c[2][2]
+            if any(sx.kind(x) == 'bin' and x[1] == '-' and sx.kind(sx.strip_paren(x[2])) == 'cast' and 'char' in str(sx.strip_paren(x[2])[1]) for x in sx.walk(ln)):
+                continue    # "rest of the object" clears (object size minus a member offset): R12.2 decides those
+            n += 1
+            if psz == 1:
+                continue
+            for t in _terms(ln):
+                if sx.kind(t) == 'bin' and t[1] == '*' and 0 in (sx.int_val(t[2]), sx.int_val(t[3])):
+                    continue    # the `0 * (dst - src)` type check of OPUS_COPY
+                if _const_factor(t) % psz != 0:
+                    bad.append((f, c, psz, t))
+                    break
+    rep.count(n)
+    inst = '%s:every memset / memcpy / memmove of typed storage has a length in whole elements' % prog.config
+    for f, c, psz, t in bad:
+        rep.violated('R12.8', '%s:%s line %s clears / copies whole elements' % (prog.config, f.name, sx.line(c)), '%s:%s' % (f.file, sx.line(c)),
+                     '`%s`: the destination points to %d-byte elements but the length term `%s` is not a multiple of %d' % (sx.show(c)[:110], psz, sx.show(t)[:50], psz), key='%s:%s' % (f.name, sx.show(c[2][0])[:40]))
+    if not bad:
+        rep.holds('R12.8', inst, None, '%d calls (%d without a recorded pointee size skipped)' % (n, skipped), n=n)
+    if n < 150:
+        rep.unresolved('R12.8', 'only %d typed clears / copies found (several hundred expected)' % n)
+
+
 def check(rep, prog, tier):
+    r12_8(rep, prog)
     r12_1(rep, prog, tier)
     r12_2(rep, prog)
     r12_3(rep, prog)
